@@ -2421,13 +2421,15 @@ def preprocess_file(
             # spare the expensive regex-substitution in case we do not need it at all
             if def_tmp not in line:
                 continue
-            def_regex = def_regexes.get(def_tmp)
-            if def_regex is None:
+            # The compiled pattern belongs to one definition of the macro: an
+            # included file may have redefined it since the pattern was built
+            cached_value, def_regex = def_regexes.get(def_tmp, (None, None))
+            if def_regex is None or cached_value != value:
                 if isinstance(value, tuple):
                     def_regex = expand_func_macro(def_tmp, value)
                 else:
                     def_regex = re.compile(rf"\b{def_tmp}\b")
-                def_regexes[def_tmp] = def_regex
+                def_regexes[def_tmp] = (value, def_regex)
 
             if isinstance(def_regex, tuple):
                 def_regex, value = def_regex
